@@ -804,6 +804,7 @@ Proof.
     + rewrite andb_false_r. split; [|intros [_ H]; discriminate].
       destruct st as [h0|]; [destruct (Nat.eqb h0 hash)|]; try destruct (fe_proc_ok e); discriminate.
     + rewrite andb_true_r. destruct (fx4 f); simpl; split; try discriminate.
+      * destruct st; try destruct (fe_proc_ok e); discriminate.
       * intros [_ H]; discriminate.
       * intros H; inversion H; auto.
       * intros [-> _]; reflexivity.
@@ -821,7 +822,8 @@ Proof.
     + destruct (fe_read e);
         try (destruct st; try destruct (fe_proc_ok e); inversion E; simpl; congruence).
       destruct (negb (fe_stat_ok e)).
-      * destruct (fx4 f); inversion E; simpl; congruence.
+      * destruct (fx4 f); [|discriminate].
+        destruct st; try destruct (fe_proc_ok e); inversion E; simpl; congruence.
       * destruct st as [h0|]; [destruct (Nat.eqb h0 hash)|]; try destruct (fe_proc_ok e); inversion E; simpl; congruence.
     + destruct st; try destruct (fe_proc_ok e); inversion E; simpl; congruence.
     + inversion E; simpl; congruence.
